@@ -12,3 +12,18 @@ let () =
          | None -> "?"
          | Some d -> enc_str d ^ ";linked")
     | _ -> "ERR args")
+
+let () =
+  (* tmpl_owner <base> <local defs,> <imports,> <registry path:defs,;...> <name> *)
+  let names s = if s = "" then [] else L.map dec_str (S.split_on_char '+' s) in
+  register "tmpl_owner" (function
+    | [base; local; imports; reg; name] ->
+        let registry = if reg = "" then [] else
+          L.map (fun item -> match S.split_on_char ':' item with
+                             | [p; d] -> (dec_str p, names d)
+                             | [p] -> (dec_str p, [])
+                             | _ -> failwith "bad registry") (S.split_on_char ';' reg) in
+        (match Link.template_owner registry (dec_str base) (names local) (names imports) (dec_str name) with
+         | Some p -> "S" ^ enc_str p
+         | None -> "N")
+    | _ -> "ERR args")
